@@ -519,3 +519,113 @@ def reachable_with_value(body, is_var, value, ty_hint=None):
             return None
         return t["otherwise"] if v else zero[0]
     return pathsens.reachable_under(body, forced)
+
+
+def simplify_proj(e):
+    """`(a, b).0` -> a: projections of a tuple aggregate built in the same body (``if let (Some(x), Some(y)) = (p, q)``)"""
+    while isinstance(e, tuple) and e and e[0] == "proj" and isinstance(e[1], tuple) and e[1][0] == "agg" and e[1][1] and e[1][1][0] == "tuple" \
+            and e[2] and str(e[2][0]).isdigit() and int(e[2][0]) < len(e[1][2]):
+        e = e[1][2][int(e[2][0])]
+    return e
+
+
+def expr_roots(body, e):
+    """the access-path roots an expression reads: (('arg', i), capture index for closure environments)"""
+    out = set()
+
+    def walk(x):
+        if isinstance(x, tuple):
+            if x and x[0] == "path" and isinstance(x[1], tuple):
+                first = x[2][0] if (x[2] and body.is_closure() and x[1] == ("arg", 1)) else None
+                out.add((x[1], first))
+                return
+            for y in x:
+                walk(y)
+        elif isinstance(x, list):
+            for y in x:
+                walk(y)
+    walk(e)
+    return out
+
+
+def bool_result_under(body, ev, force_extra=None):
+    """the values the bool result `_0` of `body` can take when every condition / assigned expression that `ev(body, expr)`
+    decides (-> True/False, None = open) is fixed: a subset of {True, False, 'open'}. `force_extra(body, bb)` may force
+    further (non-bool) switches. Used to evaluate a predicate under an assumption ("the sizes differ") instead of
+    matching the spelling of its conjunction."""
+    import pathsens
+
+    def ev2(b, e):
+        neg = False
+        while isinstance(e, tuple) and e and e[0] == "un" and e[1] == "Not":
+            neg = not neg
+            e = e[2]
+        v = ev(b, e)
+        if isinstance(v, bool):
+            return v != neg
+        return None
+
+    def forced(b, bb):
+        if force_extra is not None:
+            f = force_extra(b, bb)
+            if f is not None:
+                return f
+        t = b.term(bb)
+        if t["k"] != "switch" or t["discr_ty"] != "bool":
+            return None
+        v = ev2(b, flow.expr_of(b, t["discr"], bb))
+        if v is None:
+            return None
+        zero = [x for vv, x in t["targets"] if vv == "0"]
+        if not zero:
+            return None
+        return t["otherwise"] if v else zero[0]
+    reach = pathsens.reachable_under(body, forced, eval_expr=ev2)
+    vals = set()
+    for bb in reach:
+        blk = body.blocks[bb]
+        for s in blk["s"]:
+            if s[0] == "=" and s[1] == [0]:
+                rv = s[2]
+                if rv[0] == "use" and rv[1][0] == "k" and isinstance(rv[1][1].get("v"), bool):
+                    vals.add(rv[1][1]["v"])
+                    continue
+                try:
+                    v = ev2(body, flow._rv_expr(body, rv, bb, 0, set()))
+                except Exception:
+                    v = None
+                vals.add(v if isinstance(v, bool) else "open")
+        t = blk["t"]
+        if t["k"] == "call" and t.get("dest") == [0]:
+            v = None
+            if "callee" in t:
+                try:
+                    v = ev2(body, ("call", callee(t), [flow.expr_of(body, a, bb) for a in t["args"]], bb))
+                except Exception:
+                    v = None
+            vals.add(v if isinstance(v, bool) else "open")
+    return vals
+
+
+def field_cmp_eval(field, equal):
+    """evaluator: a comparison (`==`/`!=`, PartialEq::eq/ne) of `field` read from two DIFFERENT roots has the value it
+    has when the two fields are equal / differ"""
+    tag = f"'{field}'"
+
+    def ev(body, e):
+        if not isinstance(e, tuple) or not e:
+            return None
+        if e[0] == "bin" and e[1] in ("Eq", "Ne"):
+            a, b, is_eq = e[2], e[3], e[1] == "Eq"
+        elif e[0] == "call" and re.search(r"PartialEq(<.*>)?(>)?::(eq|ne)$", e[1]) and len(e[2]) == 2:
+            a, b, is_eq = e[2][0], e[2][1], e[1].endswith("::eq")
+        else:
+            return None
+        a, b = simplify_proj(a), simplify_proj(b)
+        if tag not in repr(a) or tag not in repr(b):
+            return None
+        ra, rb = expr_roots(body, a), expr_roots(body, b)
+        if ra and rb and ra == rb:
+            return None
+        return is_eq == equal
+    return ev
